@@ -1,6 +1,29 @@
 """C35 — object lifecycle states and events follow the documented state machine (ormsim)."""
 from props import _orm
 
+def _shape(rng, pool, cfg):
+    """retry after rollback: objects that were added (and possibly deleted again) inside a transaction that is rolled back are added
+    again to the same session"""
+    if rng.random() > 0.2:
+        return None
+    cfg["readd"] = True
+    r = lambda: rng.randrange(64)
+    odd3 = lambda: 1 + 3 * rng.randrange(20)
+    prog = [["mk", rng.choice((3, 4, 6, 7)), odd3()] for _ in range(rng.randint(1, 3))]
+    if rng.random() < 0.5:
+        prog.append(["begin_nested", 0, 0])
+    prog.append(["flush", 0, 0])
+    for _ in range(rng.randint(0, 2)):
+        prog.append([rng.choice(("delete", "delete", "set", "flush")), r(), r()])
+    prog.append(["flush", 0, 0])
+    prog.append([rng.choice(("rollback", "rollback", "sp_rollback")), 0, 0])
+    for _ in range(rng.randint(1, 3)):
+        prog.append(["add", r(), r()])
+    prog.append([rng.choice(("flush", "commit")), 0, 0])
+    prog += [[rng.choice(pool), r(), r()] for _ in range(rng.randint(0, 8))]
+    return prog
+
+
 _orm.define(globals(), "C35", ("C35",), "lifecycle",
             "deterministic simulation: seeded ORM session histories with listeners for every lifecycle event; after each operation every tracked "
             "object must be in exactly one state and the events recorded for it must form a walk, along documented edges, from its observed state "
@@ -9,4 +32,4 @@ _orm.define(globals(), "C35", ("C35",), "lifecycle",
             "configurations; per-object comparison (global order among different objects is not part of the property).  Sampled.",
             "self-consistency oracle: which objects an operation should move is judged by C39/C33, here only that state changes and events agree",
             weights={"delete": 4, "expunge": 2, "rollback": 3, "commit": 3, "begin_nested": 2, "sp_commit": 1, "sp_rollback": 2, "close": 1,
-                     "add": 3, "k_rename": 2, "row_replace": 2, "merge": 1}, fault_fn=_orm.txn_faults)
+                     "add": 3, "k_rename": 2, "row_replace": 2, "merge": 1}, fault_fn=_orm.txn_faults, shape=_shape)
